@@ -285,14 +285,20 @@ def do_op(s, mc, op, rng):
     elif op == "rawop":
         if mc.cc.get("raw"):
             w = rng.randrange(3)
+            # the raw frames leave from the client's own socket, which need not be where its DNS queries appear to come
+            # from (a resolver in between): half of the time they carry another source port
+            alt = rng.choice([None, None, 40123, (mc.sport % 60000) + 1027])
+            if rng.random() < 0.5:
+                mc.query(mc.ping_labels())          # (in lazy mode this one is being held when the raw frame arrives)
+                k.run(k.now + rng.choice([1000, 5000]))
             if w == 0:
-                mc.raw_ping()
+                mc.send_raw_dgram(proto.raw_frame(proto.RAW_PING, mc.userid), sport=alt)
             elif w == 1:
                 f = mk_frame(s, mc, "up", rng, size=60)
                 s.sent_up.append(f)
-                mc.raw_data(f)
+                mc.send_raw_dgram(proto.raw_frame(proto.RAW_DATA, mc.userid, proto.deflate(f)), sport=alt)
             else:
-                mc.raw_login()
+                mc.send_raw_dgram(proto.raw_frame(proto.RAW_LOGIN, mc.userid, proto.login_hash(mc.password, (mc.challenge + 1) & 0xFFFFFFFF)), sport=alt)
             k.run(k.now + rng.choice([1000, 30000]))
         mc.ping(wait_us=20000)
     elif op == "badip":
